@@ -37,7 +37,7 @@ reg(PropertySpec(
 
 reg(PropertySpec(
     "C07", "Adaptive temperature steps meet the ESS target and are maximal",
-    functions=[f"{SMC}:SMCSampler.current_target_efficiency", f"{SMC}:SMCSampler.determine_beta"],
+    functions=[f"{SMC}:SMCSampler.current_target_efficiency", f"{SMC}:SMCSampler.determine_beta", f"{SMC}:SMCSampler.sample"],
     lean=["SMC.lean"],
     native=_lazy("checks.native_smc", "native_C07"),
     technique="contract-based deductive verification: bisection loop invariant (bracket) on the real determine_beta, z3; ESS/IW identities in Lean; bounded native scan of the ESS curve",
@@ -114,7 +114,7 @@ MUTATES = ["samplers.smc.minipcn:MiniPCNSMC.mutate", "samplers.smc.emcee:EmceeSM
 
 reg(PropertySpec(
     "C05", "Kernels are handed the correct (tempered) target in the preconditioned space",
-    functions=LOGPROBS + MUTATES, lean=["SMC.lean"],
+    functions=LOGPROBS + MUTATES, lean=["SMC.lean", "@invmaps"],
     native=_lazy("checks.native_smc", "native_C05"),
     technique="contract-based deductive verification: symbolic execution of the real log_prob methods with element values in the extended reals (IEEE rules for +, scalar *, isnan) against the tempered-target formula at a skolem row; kernel hand-over obligations in mutate (z3); log_p_t formula in Lean; bounded native stand-in",
     assumptions=["A-USER: likelihood, prior and proposal log-density are deterministic row-wise functions of the coordinates", "the preconditioning transform's inverse returns (x, log|det dx/dz|) (C04)",
@@ -125,7 +125,7 @@ reg(PropertySpec(
 reg(PropertySpec(
     "C10", "Cached per-particle log-densities always belong to the particle's coordinates",
     functions=["samplers.mcmc:MCMCSampler.draw_initial_samples", "samplers.importance:ImportanceSampler.sample"] + MUTATES + ["samples:SMCSamples.resample", "samples:SMCSamples.to_standard_samples", "samples:BaseSamples.__getitem__",
-               "samples:Samples.__getitem__", "samples:SMCSamples.__getitem__", "samples:BaseSamples.concatenate", f"{SMC}:SMCSampler.sample"],
+               "samples:Samples.__getitem__", "samples:SMCSamples.__getitem__", "samples:BaseSamples.concatenate", f"{SMC}:SMCSampler.sample", "transforms:CompositeTransform.fit"],
     native=_lazy("checks.native_smc", "native_C10"),
     technique="contract-based deductive verification: representation invariant Aligned (cached field == row-wise user function of x) proved after every operation that builds a population: loop invariant of draw_initial_samples (filter, concatenate, trim, then likelihood), mutate of each kernel class, take/concat commute with row-wise functions, loop invariant of SMCSampler.sample (z3); bounded native recomputation",
     assumptions=["A-USER (row-wise, deterministic user functions)", "boolean-mask selection picks rows where the mask is True (assumed contract of array indexing)", "A-KERNEL"],
